@@ -236,6 +236,28 @@ func c08Run(r *Run) {
 			}
 		}
 	}
+	// a walk of the type hierarchy written somewhere else (a lineage computed when an object is thrown, a
+	// cache of ancestors): any other function of the two packages that steps along GetExtend repeatedly
+	// and reads an implements list answers subtype questions too and must cover every kind of edge
+	{
+		inClosure := map[*ast.FuncDecl]bool{}
+		for _, e := range entries {
+			for _, f := range closure(e.p, e.fd) {
+				inClosure[f] = true
+			}
+		}
+		for _, p := range []*packages.Package{dpkg, npkg} {
+			for _, f := range funcDecls(p) {
+				if f.Body == nil || inClosure[f] || seenEntry[f] {
+					continue
+				}
+				if calls(p, f, "GetExtend").repeated && calls(p, f, "GetImplements").any {
+					seenEntry[f] = true
+					entries = append(entries, entryT{p, f})
+				}
+			}
+		}
+	}
 	r.stat("hierarchy_decision_entries", len(entries))
 	for _, e := range entries {
 		fd := e.fd
